@@ -113,6 +113,9 @@ def run_set(chk, src, harnesses, workers=None, extra_src=()):
     """Compile `src` (a harness file that includes real /repo units) per distinct define set,
     run every harness + witness twin, add obligations to chk."""
     src = os.path.join(HARNESS, src) if not os.path.isabs(src) else src
+    if os.environ.get("VERIF_KEYS"):      # development aid: run only the obligations whose key contains one of these
+        pats = os.environ["VERIF_KEYS"].split(",")
+        harnesses = [h for h in harnesses if any(p in h.key for p in pats)]
     work = vf.subdir("e1")
     bins = {}
 
